@@ -28,6 +28,7 @@ pub proof fn lemma_roots_single(v: Seq<HctlTreeNode>)
     assert(roots_total(v.drop_last()) == 0);
 }
 // the canoniser counts variables in an i32 while scanning the rendered text of a (sub-)formula: texts shorter than 2^31 characters
+#[verifier::opaque]
 pub open spec fn rsmall(t: STree) -> bool { render(t).len() < i32::MAX }
 pub proof fn lemma_rsmall_children(t: STree)
     requires rsmall(t)
@@ -36,4 +37,11 @@ pub proof fn lemma_rsmall_children(t: STree)
         t matches STree::Bin(_, a, b) ==> rsmall(*a) && rsmall(*b),
         t matches STree::Hyb(_, _, _, c) ==> rsmall(*c),
 {
+    reveal(rsmall);
+}
+pub proof fn lemma_rsmall_len(t: STree)
+    requires rsmall(t)
+    ensures render(t).len() < i32::MAX
+{
+    reveal(rsmall);
 }
